@@ -233,6 +233,17 @@ func c03Check(c *C03Case) string {
 			return fmt.Sprintf("the JSON error names file %q, not \"f\"", o.FileName)
 		}
 		if got == mk(len(vals)) || (optionalLast && got == mk(len(vals)-1)) {
+			// (3) also the reported error is the same however the bytes are split across reads
+			other := []int{1}
+			if len(c.Chunks) == 1 && c.Chunks[0] == 1 {
+				other = nil
+			}
+			rd2 := &ownedReader{data: data, chunks: other, failAt: rd.failAt, failData: c.FailData, transient: c.Transient}
+			var out2 bytes.Buffer
+			o2 := runWithReader(p, rd2, &out2)
+			if o2.Class != o.Class || o2.Msg != o.Msg || o2.FileName != o.FileName {
+				return fmt.Sprintf("%s: the reported error depends on how the bytes are split across reads\n chunks %v: %s %q\n chunks %v: %s %q", c.What, c.Chunks, o.Class, o.Msg, other, o2.Class, o2.Msg)
+			}
 			return ""
 		}
 		return fmt.Sprintf("%s: output before the JSON error is not the output of the %d complete value(s)\n%s", c.What, len(vals), outDiff([]byte(got), []byte(mk(len(vals)))))
